@@ -29,9 +29,19 @@
 (*           for the mean / rank kinds; missing = union of the masks.      *)
 (*  mean     Mean(vecs, w) as exact rationals, w in none | rdm | entry;    *)
 (*           NaN (<<0,0>>) exactly where no RDM has a value.               *)
+(*  mean2    a SESSION of two calls that share one weights object:         *)
+(*           MeanFirst (stack a, masks ma) then MeanSecond (stack a2,      *)
+(*           masks ma2), both with the SAME w.  The weights are an input   *)
+(*           no call may change (WeightsFrame), so the second value is the *)
+(*           definition on (a2, ma2, w) whatever the first call saw.       *)
 (*  rescale  inputs in_r = f_r * base restricted to mask_r; the module     *)
 (*           states only the facts the post-conditions rest on (a common   *)
 (*           scale exists; which mask families are overlap-connected).     *)
+(*           A second family ("signed") takes arbitrary vectors with       *)
+(*           negative entries (crossnobis-type), among them RDMs that are  *)
+(*           negatively related to the others on their support: the        *)
+(*           post-condition "one POSITIVE constant per RDM" has no         *)
+(*           exception for them.                                           *)
 (*                                                                         *)
 (* The comparison measures themselves are NOT repeated here: they are the  *)
 (* operators of Compare.tla (property C03), instantiated below.            *)
@@ -39,7 +49,7 @@
 EXTENDS Integers, Sequences, FiniteSets, TLC, Functions, FiniteSetsExt, SequencesExt, Json
 
 CONSTANTS
-  Mode,       \* "compare" | "pool" | "mean" | "rescale"
+  Mode,       \* "compare" | "pool" | "mean" | "mean2" | "rescale"
   NC,         \* conditions behind a vector (whitened measures, boot and part masks)
   LEN,        \* entries of a vector (NC(NC-1)/2 unless only plain vectors are used)
   VecCat,     \* catalogue (sequence) of integer vectors of length LEN
@@ -54,6 +64,7 @@ CONSTANTS
   WCat,       \* mean: catalogue of per-RDM weight vectors (length >= 3)
   WECat,      \* mean: catalogue of per-entry weight matrices (>= 3 rows of length >= LEN)
   Factors,    \* rescale: integer scale factors
+  Families,   \* rescale: subset of {"prop", "signed"}
   EmitMod,    \* emit one terminal state in EmitMod ...
   EmitAligned \* ... but one in EmitAligned of the compare states whose masks are aligned (none / common)
 
@@ -62,7 +73,7 @@ vars == <<inp, pc, out>>
 
 C == INSTANCE Compare WITH
        Vecs <- {}, VecsB <- {}, MoveVecs <- {}, Moves <- {}, MonoLo <- 0, MonoHi <- 0, Scales <- {},
-       Affines <- {}, Configs <- {}, MoveConfigs <- {}, MoveEmitMod <- 1,
+       Affines <- {}, Configs <- {}, MoveConfigs <- {}, MoveEmitMod <- 1, Degenerate <- FALSE,
        a <- <<>>, b <- <<>>, pa <- <<>>, pb <- <<>>, method <- "none", sid <- 0, sigma <- <<>>,
        pc <- "none", res <- <<>>, mv <- <<>>
 
@@ -271,6 +282,22 @@ Mean == /\ Mode = "mean" /\ pc = "in"
         /\ out' = [mean |-> [k \in 1..LEN |-> MeanAt(inp, k)]]
         /\ pc' = "done" /\ UNCHANGED inp
 
+(* ---------------- mean2 mode: two calls sharing one weights object ---------- *)
+InitMean2 ==
+  \E sh \in Shapes, rot \in Rots, wk \in WKinds \ {"none"} :
+  \E wid \in (IF wk = "rdm" THEN 1..Len(WCat) ELSE 1..Len(WECat)) :
+    LET n == sh[1]  A == [i \in 1..n |-> CatVec(rot, i)]  A2 == [i \in 1..n |-> CatVec(rot, n + i)] IN
+    \E MA \in [1..n -> FreeMasks], MA2 \in [1..n -> FreeMasks] :
+       inp = [a |-> A, ma |-> MA, a2 |-> A2, ma2 |-> MA2, wk |-> wk, wid |-> wid, w |-> WeightsOf(wk, wid, n),
+              src |-> "free", arg |-> <<>>]
+Second(i) == [a |-> i.a2, ma |-> i.ma2, w |-> i.w]
+MeanFirst == /\ Mode = "mean2" /\ pc = "in"
+             /\ out' = [mean |-> [k \in 1..LEN |-> MeanAt(inp, k)], mean2 |-> <<>>]
+             /\ pc' = "first" /\ UNCHANGED inp
+MeanSecond == /\ Mode = "mean2" /\ pc = "first"
+              /\ out' = [out EXCEPT !.mean2 = [k \in 1..LEN |-> MeanAt(Second(inp), k)]]
+              /\ pc' = "done" /\ UNCHANGED inp
+
 (* ---------------- rescale mode -------------------------------------------- *)
 \* RDM r is f_r * base outside mask_r; RDMs r, s are linked when they share an entry
 Linked(M, r, s) == Keep(LEN, M[r]) \cap Keep(LEN, M[s]) # {}
@@ -281,18 +308,27 @@ Connected(M) == Reach(M, {1}, Len(M)) = DOMAIN M
 InitRescale ==
   \E sh \in Shapes, rot \in Rots, src \in MaskSrcs \ {"boot"} :
     LET n == sh[1]  base == CatVec(rot, 1) IN
-    \E f \in [1..n -> Factors] :
+    \E fam \in Families :
+    \E f \in (IF fam = "prop" THEN [1..n -> Factors] ELSE {[r \in 1..n |-> 0]}) :
+      LET A == IF fam = "prop" THEN [r \in 1..n |-> [k \in 1..LEN |-> f[r] * base[k]]]
+               ELSE [r \in 1..n |-> CatVec(rot, r)] IN
       /\ \/ /\ src = "free" /\ \E MA \in [1..n -> FreeMasks] :
-                 inp = [base |-> base, f |-> f, ma |-> MA, src |-> src, arg |-> <<>>,
-                        a |-> [r \in 1..n |-> [k \in 1..LEN |-> f[r] * base[k]]]]
+                 inp = [fam |-> fam, base |-> base, f |-> f, ma |-> MA, src |-> src, arg |-> <<>>, a |-> A]
          \/ /\ src = "part" /\ \E PA \in [1..n -> PartSets] :
-                 inp = [base |-> base, f |-> f, ma |-> [i \in 1..n |-> PartMask(PA[i])], src |-> src,
-                        arg |-> [i \in 1..n |-> SetToSortSeq(PA[i], <)],
-                        a |-> [r \in 1..n |-> [k \in 1..LEN |-> f[r] * base[k]]]]
+                 inp = [fam |-> fam, base |-> base, f |-> f, ma |-> [i \in 1..n |-> PartMask(PA[i])], src |-> src,
+                        arg |-> [i \in 1..n |-> SetToSortSeq(PA[i], <)], a |-> A]
       /\ \A r \in 1..n : Cardinality(Keep(LEN, inp.ma[r])) >= MinKeep
-      /\ \A k \in 1..LEN : base[k] > 0
+      /\ fam = "prop" => \A k \in 1..LEN : base[k] > 0
+      \* an RDM without a non-zero entry cannot be scaled
+      /\ \A r \in 1..n : \E k \in Keep(LEN, inp.ma[r]) : inp.a[r][k] # 0
+\* RDM r is negatively related to the sum of the others on the entries it has
+AntiRelated(i, r) ==
+  SumOver(Keep(LEN, i.ma[r]), LAMBDA k :
+            i.a[r][k] * SumOver({s \in DOMAIN i.a : s # r /\ k \notin i.ma[s]}, LAMBDA s : i.a[s][k])) < 0
 Rescale == /\ Mode = "rescale" /\ pc = "in"
            /\ out' = [conn |-> Connected(inp.ma),
+                      neg |-> \E r \in DOMAIN inp.a : \E k \in Keep(LEN, inp.ma[r]) : inp.a[r][k] < 0,
+                      anti |-> {r \in DOMAIN inp.a : AntiRelated(inp, r)} # {},
                       shared |-> Cardinality({k \in 1..LEN : Cardinality({r \in DOMAIN inp.ma : k \notin inp.ma[r]}) >= 2})]
            /\ pc' = "done" /\ UNCHANGED inp
 
@@ -301,8 +337,9 @@ Init == /\ pc = "in" /\ out = NoOut
         /\ CASE Mode = "compare" -> InitCompare
              [] Mode = "pool"    -> InitPool
              [] Mode = "mean"    -> InitMean
+             [] Mode = "mean2"   -> InitMean2
              [] Mode = "rescale" -> InitRescale
-Next == Parse \/ Misaligned \/ Measure \/ Pool \/ Mean \/ Rescale
+Next == Parse \/ Misaligned \/ Measure \/ Pool \/ Mean \/ MeanFirst \/ MeanSecond \/ Rescale
 Spec == Init /\ [][Next]_vars
 
 (* ---------------- theorems: compare --------------------------------------- *)
@@ -362,9 +399,22 @@ MissingWeightsIrrelevant == IsMean =>
                                   IF k \in inp.ma[r] THEN 7 * inp.w[r][k] + 1 ELSE inp.w[r][k]]]] IN
    \A k \in 1..LEN : MeanAt(j, k) = out.mean[k]
 
+(* ---------------- theorems: mean2 (a session sharing the weights) ---------- *)
+\* no call changes its weights: they are part of the input, which every action leaves alone
+WeightsFrame == [][inp' = inp]_vars
+\* the second call is the definition on its own stack and the ORIGINAL weights: it does not depend on the
+\* stack or the masks the first call saw
+SecondCallIndependent == (Mode = "mean2" /\ Done) =>
+   \A MA0 \in {inp.ma, [r \in DOMAIN inp.ma |-> {}]} :
+      LET j == [inp EXCEPT !.ma = MA0] IN
+      out.mean2 = [k \in 1..LEN |-> MeanAt(Second(j), k)]
+Mean2NaNIffNone == (Mode = "mean2" /\ Done) =>
+   /\ \A k \in 1..LEN : (out.mean[k] = Undef) <=> (\A r \in DOMAIN inp.a : k \in inp.ma[r])
+   /\ \A k \in 1..LEN : (out.mean2[k] = Undef) <=> (\A r \in DOMAIN inp.a2 : k \in inp.ma2[r])
+
 (* ---------------- theorems: rescale --------------------------------------- *)
 \* the inputs are mutually proportional: dividing RDM r by f_r is a common scale
-CommonScaleExists == Mode = "rescale" =>
+CommonScaleExists == (Mode = "rescale" /\ inp.fam = "prop") =>
    \A r, s \in DOMAIN inp.a : \A k \in Keep(LEN, inp.ma[r]) \cap Keep(LEN, inp.ma[s]) :
       inp.a[r][k] * inp.f[s] = inp.a[s][k] * inp.f[r]
 \* a connected family of at least two RDMs shares an entry
@@ -386,7 +436,11 @@ Emit == (Done /\ Pick(IF Mode = "compare" /\ Aligned(Cls) THEN EmitAligned ELSE 
      [] Mode = "mean" ->
           PrintT(ToJson([t |-> "mean", wk |-> inp.wk, wid |-> inp.wid, w |-> inp.w, src |-> inp.src, arg |-> inp.arg,
                          a |-> inp.a, ma |-> MaskSeqs(inp.ma), mean |-> out.mean]))
+     [] Mode = "mean2" ->
+          PrintT(ToJson([t |-> "mean2", wk |-> inp.wk, wid |-> inp.wid, w |-> inp.w, src |-> inp.src,
+                         a |-> inp.a, ma |-> MaskSeqs(inp.ma), a2 |-> inp.a2, ma2 |-> MaskSeqs(inp.ma2),
+                         mean |-> out.mean, mean2 |-> out.mean2]))
      [] Mode = "rescale" ->
-          PrintT(ToJson([t |-> "resc", base |-> inp.base, f |-> inp.f, src |-> inp.src, arg |-> inp.arg,
+          PrintT(ToJson([t |-> "resc", fam |-> inp.fam, neg |-> out.neg, anti |-> out.anti, base |-> inp.base, f |-> inp.f, src |-> inp.src, arg |-> inp.arg,
                          a |-> inp.a, ma |-> MaskSeqs(inp.ma), conn |-> out.conn, shared |-> out.shared]))
 =============================================================================
